@@ -94,6 +94,21 @@ func (e *emu) resize(w, h int) {
 
 func (e *emu) setHold(h bool) { e.mu.Lock(); e.hold = h; e.mu.Unlock() }
 func (e *emu) held() int      { e.mu.Lock(); defer e.mu.Unlock(); return len(e.heldQ) }
+func (e *emu) queries() int   { e.mu.Lock(); defer e.mu.Unlock(); return e.nDSR }
+
+// releaseBefore writes extra bytes followed by the answers to n held cursor queries, in one write.
+func (e *emu) releaseBefore(n int, extra []byte) {
+	e.mu.Lock()
+	out := append([]byte{}, extra...)
+	for i := 0; i < n && len(e.heldQ) > 0; i++ {
+		out = append(out, e.heldQ[0]...)
+		e.heldQ = e.heldQ[1:]
+	}
+	e.mu.Unlock()
+	if len(out) > 0 {
+		e.master.Write(out)
+	}
+}
 
 // release answers n held cursor queries and appends extra bytes in the same write.
 func (e *emu) release(n int, extra []byte) { e.releaseOpt(n, extra, false) }
